@@ -70,7 +70,10 @@ fn history<K: KesOps>(ctx: &mut Ctx, k: i64, master: &B32, emit_mode: u32) {
         emit_at = vec![0, 1, 2, 3, h - 1, h, h + 1, h + 2, total - 2, total - 1, h / 2, h / 2 + 1, h + h / 2, h + h / 2 + 1];
         for _ in 0..3 { emit_at.push(ctx.rng.below(total as u64) as u32); }
     }
-    for t in 0..total {
+    // every period, then three more update() calls at the last period (refused; the key must stay put)
+    let mut steps: Vec<(u32, u32)> = (0..total).map(|t| (t, 0)).collect();
+    for r in 1..=3 { steps.push((total - 1, r)); }
+    for (t, refused) in steps {
         ctx.states += 1;
         // oracle 1: sliding 32-byte windows over the whole buffer (period bytes included)
         for off in 0..=(live.buf.len() - 32) {
@@ -96,17 +99,23 @@ fn history<K: KesOps>(ctx: &mut Ctx, k: i64, master: &B32, emit_mode: u32) {
         }
         let selected = match emit_mode { 1 => true, 2 => emit_at.contains(&t), _ => false };
         if selected && !ctx.oracle_only {
-            let term = format!("(Case13 {} {} {} {} {} {} {})", K::COMPACT as u32, d, coq_z(k), t,
+            let term = format!("(Case13 {} {} {} {} {} {} {} {})", K::COMPACT as u32, d, coq_z(k), t, refused,
                 cl.cls(&live.seed_after), cl.slots(&live.buf[..K::SIZE]), coq_list(&der, |p| p.to_string()));
             let tag = format!("{}-d{}-{}", vname::<K>(), d,
-                if t == 0 { "fresh" } else if t + 1 == total { "last" } else if t == total / 2 { "half" } else if t + 1 == total / 2 { "before-half" } else { "mid" });
+                if refused > 0 { "refused-update" } else if t == 0 { "fresh" } else if t + 1 == total { "last" } else if t == total / 2 { "half" } else if t + 1 == total / 2 { "before-half" } else { "mid" });
             emit_case(&tag, &term);
             ctx.cases += 1;
             if ctx.samples < 3 && t == total / 2 { ctx.samples += 1; emit_sample(&format!("{} seed={} t={} buffer={}", K::NAME, hex(master), t, hex(&live.buf))); }
         }
+        let before = live.buf.clone();
         match K::update(&mut live.buf) {
             Out::Ok(true) => {}
-            Out::Ok(false) => break,
+            Out::Ok(false) => {
+                if live.buf[..K::SIZE] != before[..K::SIZE] {
+                    fail::<K>("update-error-changes-key-material", k, master, t, &live.buf, format!("a refused update changed the secret part of the buffer (was {})", hex(&before)));
+                }
+                if t + 1 < total { break; }
+            }
             o => { fail::<K>("update-error", k, master, t, &live.buf, out_string(&o, |_| String::new())); break; }
         }
     }
